@@ -117,6 +117,7 @@ def run(task, reducer, *, inplace=False, frozen=False, do_not_copy=False, initia
             "kind": o.kind,
             "value": vrepr(v) if v is not None else None,
             "value_prov": sorted(v.prov) if isinstance(v, Sym) else [],
+            "value_inner": sorted(v.inner) if isinstance(v, Sym) and v.inner is not None else [],
             "exc": (v.cls, v.origin) if o.kind == "exc" else None,
             "trace": [tuple(e) for e in o.state.trace],
             "imm": sorted(immutable_reprs(o.state.facts)),
